@@ -82,6 +82,7 @@ public:
 	long singleCase = -1;
 	int timeoutSec = 20;
 	std::map<std::string, std::string> params;
+	std::string inputFile;   // --input: replaces the generated automata of the (single) case by the ones in this file (used by the shrinker)
 
 private:
 	static const size_t CUR_SIZE = 1 << 16;
@@ -130,6 +131,7 @@ public:
 			else if (a == "--tier") tier = val();
 			else if (a == "--variant") variant = val();
 			else if (a == "--timeout") timeoutSec = atoi(val().c_str());
+			else if (a == "--input") inputFile = val();
 			else if (a == "-P")
 			{
 				std::string kv = val(); size_t e = kv.find('=');
